@@ -70,6 +70,9 @@ st2 = make(struct { S struct { A []int64 } })
 	must(e.Define("nilslice", []interface{}(nil)))
 	must(e.Define("nilmap", map[interface{}]interface{}(nil)))
 	must(e.Define("ptrs", []*int64{nil, new(int64)}))
+	must(e.Define("p32", []*int32{}))
+	must(e.Define("tim", map[int64]int64{1: 2}))
+	must(e.Define("tm2", map[string]int64{"a": 1, "b": 2, "c": 3}))
 	must(e.Define("rec", GoRec{A: 1, B: "b", C: []int64{1}}))
 	must(e.Define("recp", &GoRec{A: 1}))
 	return e
@@ -125,6 +128,10 @@ var degenerateForms = []string{
 	"b * 9223372036854775807", "b * -1", "c[9223372036854775807]", "c[-9223372036854775808]", "c[1:9223372036854775807]", "make([]int64, -1)", "make([]int64, 1, 0)", "make(chan int64, -1)",
 	"make(v)", "make([]v)", "make(map[v]v)", "make(a.b)", "make(m.v)", "make(type T, 1)", "make(type int64, c)", "new(v)", "new(m)",
 	"x[st] = 1", "x[st]", "delete(x, st)", "{st: 1}", "x[st2] = 1", "x[[st]] = 1", "x[rec] = 1", "x[rec]", "delete(x, rec)", "{rec: 1}", "st in [st]", "rec == rec", "st == st", "switch st { case st: 1 }",
+	"\"\" + nilptr", "nilptr + \"\"", "b + ptrs[0]", "\"s\" + ptrs", "ptrs += nilptr", "ptrs += [nil]", "p32 += nilptr", "p32 += ptrs[0]", "p32 += [nil]", "_t1 += [nil]", "_t1 += [nil, 1]", "ts += [nil]",
+	"_t1 += [[1]]", "ts += [1, nil]", "c += [nil]", "c += nilslice", "_t1 += nilslice", "nilslice += [nil]", "tim.b = 1", "tim.b", "tim[\"b\"] = 1", "tim[1.5] = 1", "delete(tim, \"b\")", "tm.k.j = 1", "tm[nil] = 1",
+	"for k, w in x { delete(x, \"k\"); delete(x, \"l\"); delete(x, 3); k; w }", "for k, w in tm2 { delete(tm2, \"a\"); delete(tm2, \"b\"); y = w }", "for k in x { x[k + \"z\"] = 1 }",
+	"toString(nilptr)", "toInt(nilptr)", "len(nilptr)", "nilptr == nilptr", "nilptr in ptrs", "ptrs[0] = 1", "ptrs[0] = nilptr", "*ptrs[0]", "*ptrs[1] = 2\n*ptrs[1]",
 	"tm[st] = 1", "x[f] = 1", "x[ch] = 1\nx[ch]", "x[pt] = 1", "x[m] = 1", "x[1.5] = 1\nx[1.5]", "x[nil] = 1\nx[nil]",
 	"x[c] = 1", "x[x] = 1", "delete(x, c)", "delete(x, x)", "delete(a)", "delete(c, 1)", "delete(v, 1)", "delete(nilmap, 1)", "nilmap[1] = 2", "nilmap.k = 2", "nilslice[0] = 1", "nilslice[0]", "nilptr.x", "nilptr.x = 1",
 	"close(v)", "close(a)", "close(ch)\nclose(ch)", "close(ch)\nch <- 1", "v <- 1", "a <- 1", "<-v", "<-a", "ch <- c", "ch <- v", "v, ok = <-v", "c, c = <-ch",
